@@ -1,4 +1,5 @@
 import NasdaqModel.Driver.Loop
 import NasdaqModel.Driver.Seq
 import NasdaqModel.Driver.SeqMulti
-def main : IO Unit := NasdaqModel.Driver.mainLoop [NasdaqModel.Driver.SeqD.handle, NasdaqModel.Driver.SeqMultiD.handle]
+import NasdaqModel.Driver.SeqObj
+def main : IO Unit := NasdaqModel.Driver.mainLoop [NasdaqModel.Driver.SeqD.handle, NasdaqModel.Driver.SeqMultiD.handle, NasdaqModel.Driver.SeqObjD.handle]
